@@ -104,7 +104,7 @@ func init() {
 			if err := noZeroRSA(m); err != nil {
 				return nil, err
 			}
-			rk, err := RSA(p.Int("modulusBits"), p.Int("exponent"))
+			rk, err := rsaFor(p.Int("modulusBits"), p.Int("exponent"), m)
 			if err != nil {
 				return nil, err
 			}
@@ -121,7 +121,7 @@ func init() {
 			if err := noZeroRSA(m); err != nil {
 				return nil, err
 			}
-			rk, err := RSA(p.Int("modulusBits"), p.Int("exponent"))
+			rk, err := rsaFor(p.Int("modulusBits"), p.Int("exponent"), m)
 			if err != nil {
 				return nil, err
 			}
@@ -140,7 +140,7 @@ func init() {
 			if err := noZeroRSA(m); err != nil {
 				return nil, err
 			}
-			rk, err := RSA(p.Int("modulusBits"), p.Int("exponent"))
+			rk, err := rsaFor(p.Int("modulusBits"), p.Int("exponent"), m)
 			if err != nil {
 				return nil, err
 			}
@@ -157,7 +157,7 @@ func init() {
 			if err := noZeroRSA(m); err != nil {
 				return nil, err
 			}
-			rk, err := RSA(p.Int("modulusBits"), p.Int("exponent"))
+			rk, err := rsaFor(p.Int("modulusBits"), p.Int("exponent"), m)
 			if err != nil {
 				return nil, err
 			}
